@@ -125,9 +125,13 @@ func (r *c16Runner) fire() {
 }
 
 func (r *c16Runner) dump() string {
-	var l []string
+	l := make([]string, 0, len(r.routes))
+	var sb strings.Builder
 	for id, k := range r.routes {
-		l = append(l, fmt.Sprintf("%s%c", id, k))
+		sb.Reset()
+		c16PutCID(&sb, id)
+		sb.WriteByte(k)
+		l = append(l, sb.String())
 	}
 	sort.Strings(l)
 	s := strings.Join(l, ",")
@@ -149,10 +153,11 @@ type c16Pending struct {
 
 // c16GenBounds is the alphabet of one tier.
 type c16GenBounds struct {
-	capSeq  uint64 // Retire is offered while the highest issued sequence number is below this
-	maxT    int    // clock ticks while the connection is open
-	allSeq  bool   // Retire for every seq 0..highest+1 (else 0, 1, 2, highest, highest+1)
-	hcDelay int    // SetHandshakeComplete expiry variants now+1..now+hcDelay
+	capSeq    uint64 // Retire is offered while the highest issued sequence number is below this
+	maxT      int    // clock ticks while the connection is open
+	allSeq    bool   // Retire for every seq 0..highest+1 (else 0, 1, 2, highest, highest+1)
+	hcDelay   int    // SetHandshakeComplete expiry variants now+1..now+hcDelay
+	setmaxMax int    // SetMaxActiveConnIDs calls per history
 }
 
 type c16Gen struct {
@@ -161,10 +166,10 @@ type c16Gen struct {
 	idgen *c16IDGen
 	c16GenBounds
 	setmaxN int
-	tick   int
-	run    []*c16Runner
-	frames []*wire.NewConnectionIDFrame // queued in the current step
-	otherF int
+	tick    int
+	run     []*c16Runner
+	frames  []*wire.NewConnectionIDFrame // queued in the current step
+	otherF  int
 
 	// model
 	issued  map[uint64]protocol.ConnectionID
@@ -249,7 +254,7 @@ func (in *c16Gen) Ops() []explore.Op {
 	}
 	// the peer's limit arrives with its transport parameters: once, or twice (remembered
 	// 0-RTT parameters, then the handshake's, which must not be smaller)
-	if in.setmaxN < 2 {
+	if in.setmaxN < in.setmaxMax {
 		for l := max(in.limit, 2); l <= 8; l++ {
 			ops = append(ops, explore.Op{N: "setmax", A: l})
 		}
@@ -402,13 +407,17 @@ func (in *c16Gen) Apply(op explore.Op) *explore.Fail {
 }
 
 func (in *c16Gen) ledger() string {
-	var l []string
+	l := make([]string, 0, len(in.issued))
+	var sb strings.Builder
 	for s, c := range in.issued {
-		st := ""
+		sb.Reset()
+		sb.WriteByte(byte('a' + s)) // sorts by sequence number (< 26)
+		c16PutU(&sb, "", s)
+		c16PutCID(&sb, c)
 		if in.retired[s] {
-			st = "(retired)"
+			sb.WriteString("(retired)")
 		}
-		l = append(l, fmt.Sprintf("%d:%s%s", s, c, st))
+		l = append(l, sb.String())
 	}
 	sort.Strings(l)
 	return strings.Join(l, " ")
@@ -426,26 +435,26 @@ func (in *c16Gen) checkEmpty(op explore.Op, when string) *explore.Fail {
 }
 
 func (in *c16Gen) checkRoutes(op explore.Op) *explore.Fail {
-	want := map[protocol.ConnectionID]string{}
-	must := map[protocol.ConnectionID]bool{}
-	for s, c := range in.issued {
-		if !in.retired[s] {
-			want[c] = fmt.Sprintf("seq %d", s)
-			must[c] = true
-		}
-	}
+	// want: 2 = must be routed everywhere (issued, not retired), 1 = routed on the
+	// connection's own transport (retired but not expired, client's original ID)
+	want := make(map[protocol.ConnectionID]byte, len(in.issued)+len(in.pending)+1)
 	for _, p := range in.pending {
-		want[p.cid] = "retired, not yet expired"
+		want[p.cid] = 1
 	}
 	if in.cfg.server && !in.hc {
-		want[c16ClientDCID] = "client's original destination ID"
+		want[c16ClientDCID] = 1
+	}
+	for s, c := range in.issued {
+		if !in.retired[s] {
+			want[c] = 2
+		}
 	}
 	for i, r := range in.run {
 		for id, k := range r.routes {
 			if k != 'L' {
 				return explore.Failf("standin-before-close", "%v: runner %d routes %s to a closed stand-in while the connection is open", op, i, id)
 			}
-			if _, ok := want[id]; !ok {
+			if want[id] == 0 {
 				why := "was never issued"
 				for s, c := range in.issued {
 					if c == id && in.retired[s] {
@@ -459,15 +468,19 @@ func (in *c16Gen) checkRoutes(op explore.Op) *explore.Fail {
 					"%v: connection ID %s is routed to the connection on runner %d but it %s (ledger: %s)", op, id, i, why, in.ledger())
 			}
 		}
-		for id, what := range want {
+		for id, w := range want {
 			if _, ok := r.routes[id]; ok {
 				continue
 			}
-			if i > 0 && !must[id] {
+			if i > 0 && w != 2 {
 				continue // an added transport is only required to route the unretired IDs
 			}
+			what := "retired, not yet expired / client's original destination ID before its expiry"
+			if w == 2 {
+				what = "issued, not retired"
+			}
 			return explore.Failf(fmt.Sprintf("live-not-routed:%s:runner%d", op.N, i),
-				"%v: connection ID %s (%s) is not routed on runner %d; routed: %s", op, id, what, i, r.dump())
+				"%v: connection ID %s (%s) is not routed on runner %d; routed: %s; ledger: %s", op, id, what, i, r.dump(), in.ledger())
 		}
 	}
 	return nil
@@ -502,14 +515,14 @@ func (in *c16Gen) Key() string {
 }
 
 func c16GenPart(name string, cfg c16GenCfg) explore.Part {
-	return explore.BFSPart(name, func(e explore.Env) explore.BFSSpec {
+	return c16Part(name, func(e explore.Env) explore.BFSSpec {
 		c16CheckLayout()
-		b, depth := c16GenBounds{capSeq: 7, maxT: 2, hcDelay: 1}, 5
+		b, depth := c16GenBounds{capSeq: 7, maxT: 2, hcDelay: 1, setmaxMax: 1}, 5
 		if e.Thorough() {
-			b, depth = c16GenBounds{capSeq: 9, maxT: 3, hcDelay: 2, allSeq: true}, 7
+			b, depth = c16GenBounds{capSeq: 9, maxT: 3, hcDelay: 2, allSeq: true, setmaxMax: 2}, 5
 		}
 		if cfg.zero {
-			b.allSeq, b.hcDelay, depth = true, 2, 0
+			b.allSeq, b.hcDelay, b.setmaxMax, depth = true, 2, 2, 0
 		}
 		bound := fmt.Sprintf("depth %d", depth)
 		if depth == 0 {
@@ -523,8 +536,8 @@ func c16GenPart(name string, cfg c16GenCfg) explore.Part {
 			New:              func() explore.Instance { return newC16Gen(cfg, b) },
 			MaxDepth:         depth,
 			PanicIsViolation: true,
-			Rule: fmt.Sprintf("BFS (%s) over the real connIDGenerator (server=%v, zero-length=%v) with a harness connRunner and clock; alphabet: SetMaxActiveConnIDs(2..8; at most twice, non-decreasing), Retire(seq %s; sent with another / with the retired ID; expiry now+1|2 ticks) while highest < %d, SetHandshakeComplete(expiry now+1..%d), tick (<= %d), RemoveRetiredConnIDs(now), AddConnRunner, close by peer / local / RemoveAll followed by the closing period (%d ticks)",
-				bound, cfg.server, cfg.zero, seqs, b.capSeq, b.hcDelay, b.maxT, c16ClosePeriod),
+			Rule: fmt.Sprintf("BFS (%s) over the real connIDGenerator (server=%v, zero-length=%v) with a harness connRunner and clock; alphabet: SetMaxActiveConnIDs(2..8; at most %d calls, non-decreasing), Retire(seq %s; sent with another / with the retired ID; expiry now+1|2 ticks) while highest < %d, SetHandshakeComplete(expiry now+1..%d), tick (<= %d), RemoveRetiredConnIDs(now), AddConnRunner, close by peer / local / RemoveAll followed by the closing period (%d ticks)",
+				bound, cfg.server, cfg.zero, b.setmaxMax, seqs, b.capSeq, b.hcDelay, b.maxT, c16ClosePeriod),
 		}
 	})
 }
